@@ -453,14 +453,24 @@ def addChild (deep : Bool) (t : Tree) (parent : Option Nat) (k : Kind) (th : Thr
       | _, _ => addRaw t k p'
     else addRaw t k p'
 
-/-- Which of the deviations found the model reproduces (`true` = the code as it stands). -/
+/-- Deviations from the property found in `visit_at_root_rule` / `add_child`, one switch each
+    (`true` = the deviation is present).
+    * `outerCopyParent` (C04-D1): the outermost copy became the new parent.  FIXED in /repo
+      (c501619): visitor.rs:1196 now returns `Some(inner_copy)`.
+    * `keepInUnknown` (C04-D2): IN_UNKNOWN_AT_RULE survived an @at-root that leaves every unknown
+      at-rule.  FIXED in /repo (ea0c00a): `with_scope_for_at_root` clears it (visitor.rs:1278).
+    * `shallowSibling` (C04-D3): `add_child` looks for a following sibling of the landing parent
+      only (visitor.rs:1653).  Still present (dart-sass behaves the same). -/
 structure AsFound where
-  outerCopyParent : Bool      -- visitor.rs:1190 returns the outermost copy as the new parent
-  keepInUnknown : Bool        -- visitor.rs:1244 todo: IN_UNKNOWN_AT_RULE is not cleared
-  shallowSibling : Bool       -- visitor.rs:1653 looks for a following sibling of the landing parent only
+  outerCopyParent : Bool
+  keepInUnknown : Bool
+  shallowSibling : Bool
   deriving DecidableEq, Repr
 
-def AsFound.code : AsFound := { outerCopyParent := true, keepInUnknown := true, shallowSibling := true }
+/-- the code as it stands now -/
+def AsFound.code : AsFound := { outerCopyParent := false, keepInUnknown := false, shallowSibling := true }
+/-- the tree as it was found at the start of the round (all three deviations) -/
+def AsFound.pinned : AsFound := { outerCopyParent := true, keepInUnknown := true, shallowSibling := true }
 def AsFound.specified : AsFound := { outerCopyParent := false, keepInUnknown := false, shallowSibling := false }
 
 /-- Dynamically scoped visitor state (saved and restored around every callback). -/
